@@ -174,12 +174,23 @@ func styleWitnesses(v *spec.View, el string) []string {
 				cands = append(cands, defaults[r.Default]...)
 			}
 		}
-		for _, val := range cands {
+		for _, val := range append(append([]string{}, cands...), impVariants(cands)...) {
 			d := prop + ": " + val
 			if !seen[d] && expectedStyle(v, el, []cssDecl{{prop, val}}) == d {
 				seen[d] = true
 				out = append(out, d)
 			}
+		}
+	}
+	return out
+}
+
+// impVariants: the first two candidate values with the priority flag.
+func impVariants(cands []string) []string {
+	var out []string
+	for i, c := range cands {
+		if i < 2 {
+			out = append(out, c+" !important")
 		}
 	}
 	return out
